@@ -12,10 +12,13 @@ done=set()
 if os.path.exists(out):
     for l in open(out): done.add(json.loads(l)['id'])
 os.makedirs('/tmp/mt',exist_ok=True)
+# a pristine snapshot of HEAD: the working tree of /repo may be patched by other checks meanwhile
+shutil.rmtree('/tmp/mt/base',ignore_errors=True); os.makedirs('/tmp/mt/base')
+subprocess.run('git -C /repo archive HEAD | tar -x -C /tmp/mt/base',shell=True,check=True)
 def run(m):
     d='/tmp/mt/'+m['id']
     shutil.rmtree(d,ignore_errors=True)
-    subprocess.run(['rsync','-a','--exclude','.git','/repo/',d+'/'],check=True)
+    subprocess.run(['rsync','-a','/tmp/mt/base/',d+'/'],check=True)
     p=os.path.join(d,m['file'])
     b=open(p,'rb').read()
     assert b[m['offset']:m['offset']+m['length']].decode()==m['find']
